@@ -436,14 +436,25 @@ Section Whole.
     (if lenN (f_data f) <=? ssz then unit_contract compress decompress (f_comp f) (f_data f)
      else Forall (unit_contract compress decompress (f_comp f)) (sectors ssz (f_data f))).
 
-  Theorem build_roundtrip (c : cfg) (files : list file_spec) (bytes : list N) :
+  Lemma build_structure (c : cfg) (files : list file_spec) (bytes : list N) :
     (c_version c = 1 \/ c_version c = 2) -> c_shift c < 65536 ->
     build compress c files = BOk bytes -> lenN bytes < M32 ->
     Forall (file_ok (sector_size (c_shift c))) (pending c files) ->
     NoDup (map hkey (pending c files)) ->
     (c_attrs c = 1 -> ~ In (hash_string s_attributes ht_name_a, hash_string s_attributes ht_name_b) (map hkey (pending c files))) ->
-    exists a, open bytes = Some a /\
-              forall f, In f (pending c files) -> read_file decompress a (f_name f) = ROk (f_data f).
+    exists (body abytes : list N) (ht1 : list hentry) (allblocks : list bentry) (k : N) (L1 : list item) (hash_pos block_pos : N),
+      let hbytes := enc_table (concat (map hentry_words ht1)) key_hash_table in
+      let bbytes := enc_table (concat (map bentry_words allblocks)) key_block_table in
+      let H := header_bytes c (block_pos + lenN bbytes) hash_pos block_pos (lenN ht1) (lenN allblocks) in
+      bytes = H ++ body ++ abytes ++ hbytes ++ bbytes /\
+      hash_pos = lenN H + lenN body + lenN abytes /\ block_pos = hash_pos + lenN hbytes /\
+      Inv ht1 k L1 /\ Forall hplain ht1 /\ Forall bplain allblocks /\
+      (forall f, In f (pending c files) ->
+         exists i pre fb cs fl post,
+           body = pre ++ fb ++ post /\
+           write_file compress (sector_size (c_shift c)) (c_crc c) f (header_size (c_version c) + lenN pre) = Some (fb, cs, fl) /\
+           nth_error allblocks i = Some {| b_pos := header_size (c_version c) + lenN pre; b_csize := cs; b_fsize := lenN (f_data f); b_flags := fl + fl_exists |} /\
+           In (item_of (f_name f) (N.of_nat i)) L1).
   Proof.
     intros Hv Hsh Hb Hlen Hok Hnd Hattr.
     unfold build in Hb.
@@ -535,33 +546,58 @@ Section Whole.
         split; [unfold w32; apply N.mod_lt; discriminate|].
         split; [clear - Lbytes Hlen; lia|]. split; [clear - Lbytes Hlen; lia | reflexivity].
       - injection Eatt as -> -> ->. constructor. }
-    (* open *)
-    assert (Hopen : open bytes = Some {| a_bytes := bytes; a_version := c_version c; a_shift := c_shift c; a_hash := ht1; a_blocks := allblocks |}).
-    { pose proof (open_built c (block_pos + lenN bbytes) hash_pos block_pos hsize (lenN allblocks) body abytes ht1 allblocks) as Ho.
-      cbv zeta in Ho. rewrite <- Ehbytes, <- Ebbytes, <- EH, <- Hbytes' in Ho.
-      apply Ho; try assumption.
-      - rewrite LH, Ehash_pos, Epos1. clear. lia.
-      - pose proof (inv_len _ _ _ HI1) as E1. rewrite E1, <- Hk. reflexivity.
-      - reflexivity. }
-    eexists. split; [exact Hopen|].
+    assert (Ehs : hsize = lenN ht1) by (pose proof (inv_len _ _ _ HI1) as E1; rewrite E1, <- Hk; reflexivity).
+    exists body, abytes, ht1, allblocks, k, L1, hash_pos, block_pos. cbv zeta.
+    rewrite <- Ehbytes, <- Ebbytes, <- Ehs, <- EH.
+    split; [exact Hbytes'|]. split; [rewrite LH, Ehash_pos, Epos1; clear; lia|]. split; [exact Eblock_pos|].
+    split; [exact HI1|]. split; [exact Hpl1|]. split; [exact Hall|].
     intros f Hf. apply In_nth_error in Hf. destruct Hf as [i Hi].
     destruct (laid_nth compress decompress _ _ _ _ _ _ _ _ Hlaid Hi) as (pre & fb & cs & fl & post & Eb & Ewf & Hnb).
-    rewrite Forall_forall in Hok. destruct (Hok f (nth_error_In _ _ Hi)) as (Henc & Hwf & Hfs & Hcon).
-    destruct (write_file_props _ _ _ _ _ _ _ _ Ewf) as (Hex & Hfl & Hcs).
     assert (Hbody : lenN body = lenN pre + lenN fb + lenN post) by (rewrite Eb, !lenN_app; clear; lia).
     assert (Hpos : hdr + lenN pre + lenN fb <= lenN bytes) by (clear - Hbody Lbytes LH; lia).
-    eapply (file_roundtrip compress decompress (f_name f) _ ssz (c_crc c) f (hdr + lenN pre) fb cs fl); try eassumption; try reflexivity.
-    - rewrite Essz. apply sector_size_pos.
-    - clear - Hpos Hlen. lia.
-    - split; [|split; [cbn [a_shift]; symmetry; exact Essz | split; [clear - Hpos Hlen; lia|]]].
-      + exists (H ++ pre), (post ++ abytes ++ hbytes ++ bbytes). cbn [a_bytes]. split.
-        * rewrite Hbytes', Eb. rewrite <- !app_assoc. reflexivity.
-        * rewrite lenN_app, LH. reflexivity.
-      + unfold find_block. cbn [a_hash a_blocks].
-        destruct (ht_find_inserted ht1 k L1 (f_name f) (N.of_nat i) HI1) as [idx Hidx].
-        { apply HL1. replace (N.of_nat i) with (0 + N.of_nat i) by (clear; lia). apply add_items_nth, Hi. }
-        rewrite Hidx. rewrite Nat2N.id. rewrite Eall. rewrite nth_error_app1 by (apply nth_error_Some; rewrite Hnb; discriminate).
-        rewrite Hnb. cbn [b_flags]. rewrite Hex.
-        unfold w32. rewrite N.mod_small by (clear - Hpos Hlen; lia). reflexivity.
+    exists i, pre, fb, cs, fl, post.
+    split; [exact Eb|]. split; [exact Ewf|]. split.
+    - rewrite Eall. rewrite nth_error_app1 by (apply nth_error_Some; rewrite Hnb; discriminate).
+      rewrite Hnb. unfold w32. rewrite N.mod_small by (clear - Hpos Hlen; lia). reflexivity.
+    - apply HL1. replace (N.of_nat i) with (0 + N.of_nat i) by (clear; lia). apply add_items_nth, Hi.
+  Qed.
+
+  Theorem build_roundtrip (c : cfg) (files : list file_spec) (bytes : list N) :
+    (c_version c = 1 \/ c_version c = 2) -> c_shift c < 65536 ->
+    build compress c files = BOk bytes -> lenN bytes < M32 ->
+    Forall (file_ok (sector_size (c_shift c))) (pending c files) ->
+    NoDup (map hkey (pending c files)) ->
+    (c_attrs c = 1 -> ~ In (hash_string s_attributes ht_name_a, hash_string s_attributes ht_name_b) (map hkey (pending c files))) ->
+    exists a, open bytes = Some a /\
+              forall f, In f (pending c files) -> read_file decompress a (f_name f) = ROk (f_data f).
+  Proof.
+    intros Hv Hsh Hb Hlen Hok Hnd Hattr.
+    destruct (build_structure c files bytes Hv Hsh Hb Hlen Hok Hnd Hattr)
+      as (body & abytes & ht1 & allblocks & k & L1 & hash_pos & block_pos & S).
+    cbv zeta in S. destruct S as (Ebytes & Ehp & Ebp & HI1 & Hpl1 & Hall & Hfiles).
+    pose proof (open_built c (block_pos + lenN (enc_table (concat (map bentry_words allblocks)) key_block_table)) hash_pos block_pos
+                  (lenN ht1) (lenN allblocks) body abytes ht1 allblocks) as Ho.
+    cbv zeta in Ho. rewrite <- Ebytes in Ho.
+    specialize (Ho Hv Hsh Ehp Ebp eq_refl eq_refl Hlen Hpl1 Hall).
+    eexists. split; [exact Ho|].
+    intros f Hf.
+    destruct (Hfiles f Hf) as (i & pre & fb & cs & fl & post & Eb & Ewf & Hnb & Hit).
+    rewrite Forall_forall in Hok. destruct (Hok f Hf) as (Henc & Hwf & Hfs & Hcon).
+    destruct (write_file_props _ _ _ _ _ _ _ _ Ewf) as (Hex & Hfl & Hcs).
+    set (H := header_bytes c _ hash_pos block_pos (lenN ht1) (lenN allblocks)) in *.
+    assert (LH : lenN H = header_size (c_version c)) by (apply header_length, Hv).
+    assert (Hpos : header_size (c_version c) + lenN pre + lenN fb <= lenN bytes).
+    { rewrite Ebytes, Eb, !lenN_app, LH. clear. lia. }
+    assert (Hfb32 : lenN fb < M32) by (clear - Hpos Hlen; lia).
+    refine (file_roundtrip compress decompress (f_name f) _ (sector_size (c_shift c)) (c_crc c) f (header_size (c_version c) + lenN pre) fb cs fl
+              eq_refl Henc Hwf (sector_size_pos _) Hfs Hfb32 Hcon Ewf _).
+    split; [|split; [reflexivity | split; [clear - Hpos Hlen; lia|]]].
+    - exists (H ++ pre), (post ++ abytes ++ enc_table (concat (map hentry_words ht1)) key_hash_table ++ enc_table (concat (map bentry_words allblocks)) key_block_table).
+      cbn [a_bytes]. split.
+      + rewrite Ebytes, Eb. rewrite <- !app_assoc. reflexivity.
+      + rewrite lenN_app, LH. reflexivity.
+    - unfold find_block. cbn [a_hash a_blocks].
+      destruct (ht_find_inserted ht1 k L1 (f_name f) (N.of_nat i) HI1 Hit) as [idx Hidx].
+      rewrite Hidx. rewrite Nat2N.id, Hnb. cbn [b_flags]. rewrite Hex. reflexivity.
   Qed.
 End Whole.
